@@ -539,3 +539,45 @@ def list_nested_alias_hits(cls: type, wire: Any) -> List[Tuple[str, str, str, st
                     if g.wire != g.name and item.get(g.wire) is not None:
                         out.append((short(cls), f.wire, short(m), g.wire))
     return out
+
+
+def position_kind(cls: type, wire: Any, path: Tuple[Any, ...]) -> str:
+    """Is the container at this path of a wire object of cls *declared* - the object itself, a nested model, a member
+    declared as List[...] / Dict[...] / dict, an item of such a list that is itself declared - or does it lie inside a
+    free-form value (Any, the values of Dict[str, Any], unknown members), where keeping a reference is ordinary?"""
+    def walk(tp: Any, value: Any, rest: Tuple[Any, ...]) -> str:
+        tp, _ = _strip_optional(tp)
+        arms = _model_arms(tp)
+        if arms:
+            if not isinstance(value, dict):
+                return "free"
+            if not rest:
+                return "declared"
+            arm = match_arm(arms, value)
+            for f in fields(arm):
+                if f.wire == rest[0]:
+                    return walk(f.annotation, value.get(rest[0]), rest[1:])
+            return "free"                       # an unknown member
+        origin = typing.get_origin(tp)
+        if origin in (list, List):
+            if not isinstance(value, list):
+                return "free"
+            if not rest:
+                return "declared"
+            args = typing.get_args(tp)
+            if not args or not isinstance(rest[0], int) or rest[0] >= len(value):
+                return "free"
+            return walk(args[0], value[rest[0]], rest[1:])
+        if origin in (dict, Dict) or tp is dict:
+            if not isinstance(value, dict):
+                return "free"
+            if not rest:
+                return "declared"
+            args = typing.get_args(tp)
+            vt = args[1] if len(args) > 1 else Any
+            if vt is Any or rest[0] not in value:
+                return "free"
+            return walk(vt, value[rest[0]], rest[1:])
+        return "free"
+
+    return walk(cls, wire, tuple(path))
